@@ -16,6 +16,7 @@ import (
 //
 //	num:<kind>:<q>         numeric carrier of kind int,int8..uint64,float32,float64 holding q/64
 //	big:<kind>:max|min     extreme value of the kind
+//	huge:<float>|inf|-inf|nan   float64 outside the fixed-point window
 //	nil                    untyped nil
 //	nilptr:<T>             typed nil pointer; T in int,string,struct,slice,map,vstringer,pstringer,vnumber,vboolean,person
 //	ptr:<id>               pointer to the value of another fixture (ints, strings, slices, maps, structs)
@@ -182,6 +183,16 @@ func fixtureByID(id string) (stick.Value, error) {
 		return numOfKind(arg(1), float64(q)/64)
 	case "big":
 		return bigOfKind(arg(1), arg(2))
+	case "huge":
+		switch arg(1) {
+		case "inf":
+			return math.Inf(1), nil
+		case "-inf":
+			return math.Inf(-1), nil
+		case "nan":
+			return math.NaN(), nil
+		}
+		return strconv.ParseFloat(arg(1), 64)
 	case "str":
 		return strings.Replace(id[4:], "%20", " ", -1), nil
 	case "bool":
